@@ -40,6 +40,10 @@ class _ObjClasses(dict):
             self["Marker"] = (MK.Marker, ["_markers"])
             self["version_info"] = (version_info, ["major", "minor", "micro", "releaselevel", "serial"])
             self["raise"] = (Raise, ["cls"])
+            from packaging import _tokenizer as TK
+            self["Tokenizer"] = (TK.Tokenizer, ["source", "position", "next_token"])
+            self["Token"] = (TK.Token, ["name", "text", "position"])
+            self["ParsedRequirement"] = (PA.ParsedRequirement, list(PA.ParsedRequirement._fields))
 
     def __contains__(self, k):
         self._load()
@@ -146,6 +150,11 @@ class _P:
             cls, _ = _OBJ_CLASSES[name]
             if issubclass(cls, tuple):
                 return cls(**fields)
+            if name == "Tokenizer":                       # x3: a real tokenizer (compiled rules) moved to the position
+                from packaging import _tokenizer as TK
+                o = TK.Tokenizer(fields["source"], rules=TK.DEFAULT_RULES)
+                o.position, o.next_token = fields["position"], fields["next_token"]
+                return o
             o = object.__new__(cls)
             for k, v in fields.items():
                 object.__setattr__(o, k, v)
@@ -722,6 +731,88 @@ def _g_marker_evaluate(rng):
     return _with_oracle("Marker.evaluate", [m, env])
 
 
+# ------------------------------------------------------------------------------------------------ x3: the parser
+PARSER_FUNCS = ["_parse_marker_var", "_parse_marker_op", "_parse_marker_item", "_parse_marker_atom", "_parse_marker",
+                "_parse_full_marker", "_parse_version_many", "_parse_specifier", "_parse_extras_list", "_parse_extras",
+                "_parse_requirement_marker", "_parse_requirement_details", "_parse_requirement"]
+
+
+def _parser_text(rng):
+    """a marker or a requirement, as written or damaged"""
+    from gen import markers as G
+    r = rng.random()
+    if r < 0.45:
+        s = _marker_text(rng)[2]
+        if rng.random() < 0.25:
+            s = G.damage(rng, s)
+        return s, "marker"
+    from props import C08
+    if r < 0.55:
+        return rng.choice(C08.WITNESS_TEXTS), "req"
+    s = C08.render(rng, C08.req_struct(rng), loose=rng.random() < 0.2)
+    if rng.random() < 0.3:
+        s = C08.damage_req(rng, s)
+    return s, "req"
+
+
+def _entries(text, kind):
+    """(function, position, extra arguments) at every entry into a parser function while the real parser runs on text"""
+    from packaging import _parser as PA
+    seen = []
+    saved = {}
+    for n in PARSER_FUNCS:
+        real = getattr(PA, n)
+        saved[n] = real
+
+        def w(tokenizer, *a, _n=n, _real=real, **k):
+            if tokenizer.next_token is None:
+                seen.append((_n, tokenizer.position, dict(k)))
+            return _real(tokenizer, *a, **k)
+        setattr(PA, n, w)
+    try:
+        try:
+            (PA.parse_marker if kind == "marker" else PA.parse_requirement)(text)
+        except Exception:
+            pass
+    finally:
+        for n, v in saved.items():
+            setattr(PA, n, v)
+    return seen
+
+
+def _g_parser_fn(name):
+    def g(rng):
+        from packaging import _tokenizer as TK
+        for _ in range(200):
+            text, kind = _parser_text(rng)
+            if rng.random() < 0.1:
+                text, kind = text, ("req" if kind == "marker" else "marker")      # the other grammar's text
+            hits = [e for e in _entries(text, kind) if e[0] == name]
+            if hits:
+                _, pos, kw = rng.choice(hits)
+                t = TK.Tokenizer(text, rules=TK.DEFAULT_RULES)
+                t.position = pos
+                return [t] + [kw[k] for k in kw]
+        t = TK.Tokenizer(_parser_text(rng)[0], rules=TK.DEFAULT_RULES)
+        return [t] + ([0, "x"] if name == "_parse_requirement_marker" else [])
+    return g
+
+
+def _g_parse_source(rng):
+    text, kind = _parser_text(rng)
+    return [text]
+
+
+def _g_process_env_var(rng):
+    from gen import markers as G
+    return [rng.choice(list(G.CANON_OF) + ["python_implementation", "platform.python_implementation", "x", ""]).replace(".", "_")]
+
+
+def _g_process_python_str(rng):
+    from props import C09
+    return [C09._lit_token(rng)]
+
+
 # lean name -> (module, attribute path, argument generator)
 FUNCS = {
     "_parse_letter_version": ("packaging.version", "_parse_letter_version", _g_parse_letter_version),
@@ -784,6 +875,15 @@ FUNCS.update({
     "Marker.__hash__": ("packaging.markers", "Marker.__hash__", _g_marker_self),
     "Marker.evaluate": ("packaging.markers", "Marker.evaluate", _g_marker_evaluate),
 })
+FUNCS.update({n: ("packaging._parser", n, _g_parser_fn(n)) for n in PARSER_FUNCS})
+FUNCS.update({
+    "parse_marker": ("packaging._parser", "parse_marker", _g_parse_source),
+    "parse_requirement": ("packaging._parser", "parse_requirement", _g_parse_source),
+    "process_env_var": ("packaging._parser", "process_env_var", _g_process_env_var),
+    "process_python_str": ("packaging._parser", "process_python_str", _g_process_python_str),
+})
+# functions over a shared tokenizer: the answer is the result together with the tokenizer afterwards
+STATE_FUNCS = set(PARSER_FUNCS)
 # functions whose first wire argument is the oracle table (the real function runs against the real callees)
 EXT_FUNCS = {"_normalize_extra_values", "_eval_op", "_normalize", "_evaluate_markers", "Marker.evaluate"}
 # functions run with `hash` replaced by a symbolic stand-in in their module (see PyRt.hash_sym)
@@ -832,6 +932,12 @@ class _Src:
                 elif p_.kind != p_.KEYWORD_ONLY:
                     pos.append(v)
             kw = {p_.name: v for p_, v in zip(params, vals) if p_.kind == p_.KEYWORD_ONLY}
+            if name in STATE_FUNCS:
+                import warnings
+                with warnings.catch_warnings():
+                    warnings.simplefilter("ignore")
+                    r = f(*pos, **kw)
+                return "ok " + enc_val((r, pos[0]))
             r = f(*pos, **kw)
             return "ok " + enc_val(r)          # a generator's body runs here, inside the try
         except RecursionError:
